@@ -133,8 +133,41 @@ func fbits(f float32) uint32 { return math.Float32bits(f) }
 
 // SameCall reports whether two recorded calls are identical, comparing
 // numbers by their bits (so NaN equals the same NaN and -0 differs from +0).
+// colour environments for SameColor: 2 x (palette, registers) with 256
+// pairwise different entries
+var colorEnv = func() (e [2][2][64]color.RGBA) {
+	for k := 0; k < 2; k++ {
+		for j := 0; j < 2; j++ {
+			for i := 0; i < 64; i++ {
+				x := uint32(k*128+j*64+i)*2654435761 + 12345
+				e[k][j][i] = color.RGBA{uint8(x >> 24), uint8(x >> 16), uint8(x >> 8), 0xff}
+			}
+		}
+	}
+	return
+}()
+
+// SameColor reports whether two ivg.Color values denote the same colour
+// expression. Identical values do; otherwise what counts is what they
+// resolve to (two environments in which every palette entry and every
+// register holds a different colour), not how the library lays a Color out
+// internally (an index may be kept reduced modulo 64 or not).
+func SameColor(a, b ivg.Color) bool {
+	if a == b {
+		return true
+	}
+	for k := range colorEnv {
+		if a.Resolve(&colorEnv[k][0], &colorEnv[k][1]) != b.Resolve(&colorEnv[k][0], &colorEnv[k][1]) {
+			return false
+		}
+	}
+	ra, oka := a.RGBA()
+	rb, okb := b.RGBA()
+	return oka == okb && ra == rb
+}
+
 func SameCall(a, b *Op) bool {
-	if a.K != b.K || a.U != b.U || a.Incr != b.Incr || a.C != b.C || a.LA != b.LA || a.SW != b.SW {
+	if a.K != b.K || a.U != b.U || a.Incr != b.Incr || !SameColor(a.C, b.C) || a.LA != b.LA || a.SW != b.SW {
 		return false
 	}
 	for i := range a.F {
